@@ -139,7 +139,7 @@ int main(int argc, char** argv) {
     Ctx ctx;
     ctx.parse(argc, argv, "C15");
     const bool T = ctx.thorough();
-    const uint32_t N = T ? (1u << 22) : (1u << 18);
+    const uint32_t N = T ? (1u << 25) : (1u << 20);
     build_sieve(std::max<uint32_t>(N, 1u << 20) + 70000);
     // oracle self-check: the two independent references must agree where both apply
     for (uint32_t n = 0; n <= SIEVE_N; n += (n < 70000 ? 1 : 37)) {
@@ -153,7 +153,7 @@ int main(int argc, char** argv) {
     // ---- isprime / factor: every n in [0, N]
     {
         int hangs = 0;
-        const uint32_t B = 4096;
+        const uint32_t B = T ? 65536 : 4096;
         for (uint64_t lo = 0; lo <= N; lo += B) {
             uint64_t hi = std::min<uint64_t>(lo + B, (uint64_t)N + 1);
             if (!ctx.take("prime.sweep", P().kv("lo", (long long)lo).kv("hi", (long long)hi))) continue;
@@ -302,7 +302,7 @@ int main(int argc, char** argv) {
     }
     // ---- nextpow2 / ispow2: every m in [1, 2^22] (quick 2^18), windows around 2^k and INT_MAX
     {
-        const long long M = T ? (1 << 22) : (1 << 18), B = 65536;
+        const long long M = T ? (1 << 26) : (1 << 20), B = T ? (1 << 20) : 65536;
         auto one = [](ChildCtx& c, long long m) {
             fb::shm()->prog[0] = m;
             fb::label("nextpow2");
